@@ -476,6 +476,24 @@ func c06Config(c *core.Ctx, k int) {
 		}
 		c06Call(c, n, data, "depth-8 nesting", true)
 		c06Call(c, n, gen.InjectHostile(r, data, c06Hostile[r.Intn(len(c06Hostile))]), "depth-8 nesting + hostile", true)
+		// issue paths of 12..30 segments (the leaf is missing at the bottom of a struct / slice chain), each followed by ordinary
+		// calls on the objects that execution hands back to the library's pools
+		deep := req(str())
+		var deepData any = ""
+		for d := 0; d < 12+k%5*4; d++ {
+			if d%2 == 0 {
+				deep = structOf("n", deep, "f", prim(spec.Int))
+				deepData = map[string]any{"n": deepData}
+			} else {
+				deep = sliceOf(deep)
+				deepData = []any{deepData}
+			}
+		}
+		c06Call(c, deep, deepData, "issue path of many segments", true)
+		for i := 0; i < 4; i++ {
+			c06Call(c, req(str()), "", "ordinary call after a deep one", false)
+			c06Call(c, structOf("a", req(str())), map[string]any{}, "ordinary call after a deep one", false)
+		}
 	case k < 32:
 		// a field keyed by the empty string, at top level and nested, present and missing
 		mk := func() *spec.Node {
